@@ -556,3 +556,12 @@ Fixpoint item_size (i : item) : nat :=
   | IStruct _ kids => S (fold_right (fun k n => item_size k + n)%nat O kids)
   | _ => 1%nat
   end.
+
+(** ============================================================ a field tagged `omitempty`
+    applyOmitEmptyEncode (ttlv/encoder.go): the zero value is not written;
+    applyOmitEmptyDecode (ttlv/decoder.go): when the next item has another tag the field is zero.
+    Shown for an int32 field (e.g. CryptographicParameters.TagLength); used only to state the known
+    finding that an optional element holding its zero value is not reproduced. *)
+Definition omitempty_int_enc (tag v : Z) : list item := if v =? 0 then [] else [IInt tag v].
+Definition omitempty_int_dec {R : Type} (F : rawfmt R) (tag : Z) (c : cur R) : res (Z * cur R) :=
+  if negb (c_tag c =? tag) then Ok (0, c) else c_integer F tag c.
